@@ -146,19 +146,29 @@ func (e *Engine) eval(f *frame, v ssa.Value, guard T) Value {
 		it := &MapIter{m: m.m}
 		if m.m != nil {
 			n := len(m.m.keys)
-			it.ord = permutation(n, e.mapOrder)
+			for _, i := range permutation(n, e.mapOrder) {
+				it.keys = append(it.keys, m.m.keys[i])
+				it.vals = append(it.vals, m.m.vals[i])
+			}
 		}
 		return it
 	case *ssa.Next:
 		it := e.get(f, x.Iter).(*MapIter)
 		mt := x.Iter.(*ssa.Range).X.Type().Underlying().(*types.Map)
-		for it.pos < len(it.ord) {
-			i := it.ord[it.pos]
+		for it.pos < len(it.keys) {
+			k, l := it.keys[it.pos], it.vals[it.pos]
 			it.pos++
-			if i >= len(it.m.keys) { // entries deleted during iteration
+			present := false
+			for _, v := range it.m.vals { // entries deleted during the iteration are not produced
+				if v == l {
+					present = true
+					break
+				}
+			}
+			if !present {
 				continue
 			}
-			return TupleV{[]Value{tbool(true), it.m.keys[i], it.m.vals[i].load()}}
+			return TupleV{[]Value{tbool(true), k, l.load()}}
 		}
 		return TupleV{[]Value{tbool(false), zeroValue(mt.Key()), zeroValue(mt.Elem())}}
 	case *ssa.Call:
